@@ -207,7 +207,11 @@ func c07ChainPrograms() []*Program {
 
 func c07BoundPrograms() []*Program {
 	var out []*Program
-	type ch struct{ name string; body, post Stmt; fn bool }
+	type ch struct {
+		name       string
+		body, post Stmt
+		fn         bool
+	}
 	changes := []struct {
 		name string
 		body []Stmt
@@ -301,7 +305,9 @@ func c07ObjAliasPrograms() []*Program {
 
 func c07EffectfulConditions() []*Program {
 	var out []*Program
-	begin := func(st ...Stmt) *Program { return &Program{Items: []any{&Rule{Kind: "BEGIN", Body: &Block{Stmts: st}}}} }
+	begin := func(st ...Stmt) *Program {
+		return &Program{Items: []any{&Rule{Kind: "BEGIN", Body: &Block{Stmts: st}}}}
+	}
 	q, item, st, n, it, v, i, a := V("q"), V("item"), V("st"), V("n"), V("it"), V("v"), V("i"), V("a")
 	take := func(dst, from Expr, m string) Expr { return &Paren{X: Asg(dst, Meth(from, m))} }
 	for _, m := range []string{"popfirst", "pop"} {
@@ -604,7 +610,9 @@ func init() {
 		NumCases:      c07Cases,
 		Run:           c07Run,
 		MinConclusive: func(tier string) int { return 3000 },
-		Exhaustive:    func(tier string) string { return "signal x loop kind x placement matrix (300 cells), signal x header position x enclosing loop (225 cells), long-history table" },
-		Assumptions:   []string{"statement semantics of DESIGN.md section 3.6-3.7", "generated programs obey the generator discipline of section 3.14 (no location both read and written in one statement, no mutation of an iterated container)"},
+		Exhaustive: func(tier string) string {
+			return "signal x loop kind x placement matrix (300 cells), signal x header position x enclosing loop (225 cells), long-history table"
+		},
+		Assumptions: []string{"statement semantics of DESIGN.md section 3.6-3.7", "generated programs obey the generator discipline of section 3.14 (no location both read and written in one statement, no mutation of an iterated container)"},
 	})
 }
